@@ -148,8 +148,9 @@ pub mod verif {
             FLUSH_END[N_FLUSH] = e;
             FLUSH_AT[N_FLUSH] = N_EVENTS;
             let base = mem_base();
-            // snapshot only ranges that lie inside the arena
-            if s >= base && e <= base + ARENA && s <= e {
+            // snapshot only ranges that lie inside the arena (not in the two-page arena variant,
+            // whose obligations do not look at flush content)
+            if cfg!(not(verif_big_arena)) && s >= base && e <= base + ARENA && s <= e {
                 let mut i = 0;
                 while i < SNAP {
                     if s + i < e {
